@@ -1,6 +1,6 @@
 """C18 — workflow operations replay deterministically and never mix between workflows.
 
-E2/E3 (histories): every program of <= 3 workflow operations from {random, utc_now, uuid,
+E2/E3 (histories): every program of 1..3 (thorough 1..4) workflow operations from {random, utc_now, uuid,
     execute_task(sub, 0), execute_task(sub, 1)} is run by ONE interpreter task (vf/tasks_c18.py) through the
     real path (task(...) -> get_invocations_to_run -> invocation.run), for every re-execution history:
       retry            A1 A2 A3           (RetryError, max_retries=3)
@@ -29,6 +29,8 @@ orchestrator.route_call, the invocations read back through the state backend, a 
     workflows-receive-same-value        W' obtains a value that W obtained before (random/uuid seeds come from the
                                         workflow id, timestamps from a per-workflow base time read from the strictly
                                         increasing virtual clock: equal values can only come from a shared record / seed)
+    values-depend-on-process-history    the same world run twice in one process yields other values (schedule part)
+Report, genuine defect, signatures, suggested fix, mutants: notes/c18.md
 """
 
 from __future__ import annotations
@@ -44,13 +46,6 @@ from vf.worlds import runner_ctx
 
 MOD = "vf.props.c18"
 VALUE_OPS = ("random", "utc_now", "uuid")
-FIXED3 = [
-    ("random", "random", "random"), ("uuid", "uuid", "uuid"), ("utc_now", "utc_now", "utc_now"),
-    ("random", "uuid", "utc_now"), ("utc_now", "random", "exec0"), ("exec0", "exec1", "exec0"),
-    ("exec0", "random", "exec0"), ("exec1", "uuid", "exec0"), ("random", "exec0", "random"),
-    ("uuid", "exec1", "utc_now"), ("exec0", "exec0", "exec1"), ("utc_now", "exec1", "random"),
-]
-# histories: name -> (two workflows?, retries, needs a death position)
 HISTORIES = ("retry", "kill", "recover", "two-sequential", "two-alternating", "two-seq-retry")
 # a violation of a composite history is attributed to the simplest sub-history of the same
 # (program, backend, image) that shows the same (clause, op): history minimisation
@@ -566,6 +561,33 @@ def _fold(ctx: Ctx) -> None:
     ctx.violations[:] = folded
 
 
+def _depends_on_process_history(d: dict, p: Partial) -> bool:
+    """The same world is built and run twice in this process under the default schedule.  If the workflows obtain
+    other values the second time, the operations depend on state that outlives the world (process-level state of the
+    workflow code): a violation of 'the same every time ... in the same process', reported here because the schedule
+    explorer (rightly) refuses scenarios that are not reproducible."""
+    scn = build(d)
+    e1._set_points(scn)
+    try:
+        a = scn.execute([], None)
+        b = scn.execute([], None)
+    finally:
+        sched.clear_points()
+    if scn.digest(a) == scn.digest(b):
+        return False
+    va = [(r["inv"], r["attempt"], r["values"]) for r in a.obs["log"]]
+    vb = [(r["inv"], r["attempt"], r["values"]) for r in b.obs["log"]]
+    kinds = sorted({("exec" if x[0].startswith("exec") else x[0]) for ra, rb in zip(va, vb)
+                    for x, y in zip(ra[2], rb[2]) if x != y}) or ["-"]
+    for k in kinds:
+        p.violation({"clause": "values-depend-on-process-history", "history": "two-" + d.get("procs", "threads"),
+                     "image": "same" if d.get("procs", "threads") == "threads" else "fresh",
+                     "backend": d["backend"], "op": k},
+                    {"program": d["prog"], "first_run": va[:4], "second_run_of_the_same_world": vb[:4]},
+                    {"kind": "rerun", "desc": d})
+    return True
+
+
 MODES = ((env.MEM, "same"), (env.SQLITE, "same"), (env.SQLITE, "fresh"), (env.SQLITE, "ping-pong"))
 
 
@@ -583,6 +605,7 @@ def run(ctx: Ctx) -> None:
     ds = schedule_descs(ctx)
     if only:
         ds = [d for d in ds if only in e1.desc_key(d)]
+    ds = [d for d in ds if not _depends_on_process_history(d, ctx)]
     if ds:
         e1.explore_all(ctx, MOD, ds, lambda d: d["bound"])
     _fold(ctx)
@@ -608,6 +631,9 @@ def replay(payload: dict) -> bool:
     r = payload["replay"]
     if r.get("kind") == "schedule":
         return e1.replay_schedule(r)
+    if r.get("kind") == "rerun":
+        e1.prepare()
+        return _depends_on_process_history(r["desc"], Partial())
     obs = run_history(r["backend"], r["image"], tuple(r["prog"]), r["history"], r["die_at"])
     found, _ = judge(obs, tuple(r["prog"]))
     for clause, op, detail in found:
